@@ -21,12 +21,12 @@ m=json.load(open(sys.argv[1]))
 how=m['demo_how_to_run']
 for a,b in re.findall(r'cp _seed/demo/(\S+) (\S+)',how): print('CP',a,b)
 r=re.search(r"go test ([^;]*?)(?: ;|;|$| \()",how)
-print('TEST',r.group(1).strip())
+print('TEST',r.group(1).strip().rstrip("'").strip())
 PY
   cps=$(grep '^CP' /var/tmp/seedconfirm.plan)
   testargs=$(grep '^TEST' /var/tmp/seedconfirm.plan | cut -d' ' -f2-)
   place() { echo "$cps" | while read _ a b; do cp $d/demo/$a $WT/$b; done; }
-  unplace() { echo "$cps" | while read _ a b; do rm -f $WT/$b; done; }
+  unplace() { echo "$cps" | while read _ a b; do case $b in */) rm -f $WT/$b$a;; *) rm -f $WT/$b;; esac; done; }
   rundemo() { (cd $WT && eval "unshare -n sh -c 'ip link set lo up; go test $testargs'") >> $log 2>&1; }
   git -C $WT checkout -q -- . ; git -C $WT clean -fdq
   git -C $WT apply $d/patch.diff || { echo "seed=$id patch does not apply"; continue; }
